@@ -5,9 +5,18 @@ use crate::{
     stat::{self, ResourceNode},
     utils::sleep_for_ms,
 };
+#[cfg(not(sentinel_verif))]
 use lazy_static::lazy_static;
+#[cfg(sentinel_verif)]
+use sentinel_verif_rt::lazy_static;
+#[cfg(not(sentinel_verif))]
 use std::sync::atomic::{AtomicU64, Ordering};
+#[cfg(sentinel_verif)]
+use sentinel_verif_rt::sync::atomic::{AtomicU64, Ordering};
+#[cfg(not(sentinel_verif))]
 use std::sync::{Arc, Mutex, Once};
+#[cfg(sentinel_verif)]
+use sentinel_verif_rt::sync::{Arc, Mutex, Once};
 
 lazy_static! {
     /// The timestamp of the last fetching. The time unit is ms (= second * 1000).
